@@ -36,6 +36,9 @@ var (
 
 // NewMMapRWManager returns a newly initialized MMapRWManager.
 func NewMMapRWManager(path string, capacity int64) (*MMapRWManager, error) {
+	if h, _, err := verifFS("open", path, capacity, nil); h {
+		return nil, err
+	}
 	f, err := os.OpenFile(path, os.O_CREATE|os.O_RDWR, 0644)
 	defer f.Close()
 
@@ -53,6 +56,7 @@ func NewMMapRWManager(path string, capacity int64) (*MMapRWManager, error) {
 		return nil, err
 	}
 
+	verifMapPath(m, path)
 	return &MMapRWManager{m: m}, nil
 }
 
@@ -63,6 +67,9 @@ func (mm *MMapRWManager) WriteAt(b []byte, off int64) (n int, err error) {
 		return 0, ErrUnmappedMemory
 	} else if off >= int64(len(mm.m)) || off < 0 {
 		return 0, ErrIndexOutOfBound
+	}
+	if h, n, err := verifFS("write", verifPathOf(mm.m), off, b); h {
+		return n, err
 	}
 
 	return copy(mm.m[off:], b), nil
@@ -82,10 +89,14 @@ func (mm *MMapRWManager) ReadAt(b []byte, off int64) (n int, err error) {
 
 // Sync synchronizes the mapping's contents to the file's contents on disk.
 func (mm *MMapRWManager) Sync() (err error) {
+	if h, _, err := verifFS("sync", verifPathOf(mm.m), 0, nil); h {
+		return err
+	}
 	return mm.m.Flush()
 }
 
 //Close deletes the memory mapped region, flushes any remaining changes
 func (mm *MMapRWManager) Close() (err error) {
+	verifFS("close", verifPathOf(mm.m), 0, nil)
 	return mm.m.Unmap()
 }
